@@ -132,6 +132,21 @@ func c05CLI(c *mon.Ctx, aText, bText string, o OptSet, yaml bool) {
 				args = append(args, "-color") // nor on how it is rendered
 				c.Feature("cli_with_-color")
 			}
+			if c.R.Chance(0.2) {
+				// boolean flags spelled with a false value are flags that are not given
+				for _, fl := range []string{"-set=false", "-mset=false"} {
+					skip := false
+					for _, x := range args {
+						if x == "-set" && fl == "-set=false" || x == "-mset" && fl == "-mset=false" {
+							skip = true
+						}
+					}
+					if !skip {
+						args = append([]string{fl}, args...)
+					}
+				}
+				c.Feature("cli_with_false_flags")
+			}
 			args = append(args, "a.json", "b.json")
 			res := RunCLI(c, bin, args, "", map[string]string{"a.json": aText, "b.json": bText})
 			c.Feature("cli_runs")
@@ -190,7 +205,7 @@ func init() {
 			"verdict compares len(Diff)==0, Equals and an independent oracle (ref.Canon / ref.EqPrec) pairwise; CLI: exit status of the three binaries " +
 			"on a sample of the same pairs; non-trivial = operands differ textually; distinct = distinct (a, b, options)",
 		Floors: map[string]int{"oracle_equal": 5000, "oracle_unequal": 5000, "equal_but_textually_different": 2000, "cli_runs": 500,
-			"cli_status_0": 100, "cli_status_1": 100, "same_document_shared_identities": 3000, "cli_with_-color": 100, "values_moved_between_keys": 2000, "a_is_patch_result": 3000, "b_is_patch_result": 3000},
+			"cli_status_0": 100, "cli_status_1": 100, "same_document_shared_identities": 3000, "cli_with_-color": 100, "cli_with_false_flags": 50, "values_moved_between_keys": 2000, "a_is_patch_result": 3000, "b_is_patch_result": 3000},
 		Assumptions: []string{
 			"oracle: ref.Canon under the reading of the option set; ref.EqPrec for Precision",
 			"SetKeys inputs satisfy the key precondition; MERGE inputs include nulls in the library leg (the biconditional is not restricted to null-free documents), the CLI leg keeps them null-free",
